@@ -334,10 +334,16 @@ class FetchAtt:
     ####################################################################
     #
     def _single_section(
-        self, msg: Message | EmailMessage, section: int | str
+        self,
+        msg: Message | EmailMessage,
+        section: int | str,
+        top_level: bool = False,
     ) -> bytes:
         """
         Flatten message text from single top level section.
+
+        `top_level` is True when `msg` is the whole message and not one of
+        its body parts.
         """
         match section:
             case int():
@@ -401,8 +407,14 @@ class FetchAtt:
                         # headers we need to use the first sub-part of this
                         # message.
                         #
+                        # NOTE: That is for a body *part* (`BODY[2.HEADER]`).
+                        #       `BODY[HEADER]` of a whole message whose content
+                        #       type is message/rfc822 is that message's own
+                        #       header.
+                        #
                         if (
-                            msg.is_multipart()
+                            not top_level
+                            and msg.is_multipart()
                             and msg.get_content_type() == "message/rfc822"
                         ):
                             return msg_headers_as_bytes(
@@ -426,13 +438,16 @@ class FetchAtt:
     ####################################################################
     #
     def _body(
-        self, msg: Message | EmailMessage, section: None | list[int | str]
+        self,
+        msg: Message | EmailMessage,
+        section: None | list[int | str],
+        top_level: bool = True,
     ) -> bytes:
         if not section:
             return msg_as_bytes(msg)
 
         if len(section) == 1:
-            return self._single_section(msg, section[0])
+            return self._single_section(msg, section[0], top_level=top_level)
 
         if isinstance(section[0], int):
             # We have an integer sub-section. This means that we
@@ -450,7 +465,7 @@ class FetchAtt:
             try:
                 bp = msg.get_payload(section[0] - 1)
                 assert isinstance(bp, Message)
-                return self._body(bp, section[1:])
+                return self._body(bp, section[1:], top_level=False)
             except (TypeError, IndexError) as err:
                 raise BadSection(
                     f"Message does not contain subsection {section[0]} "
@@ -467,11 +482,13 @@ class FetchAtt:
         """
         msg_text = self._body(msg, section)
 
-        # We need to always terminate with crlf.
+        # We need to always terminate with crlf. (Except when there is
+        # nothing to terminate: `BODY[TEXT]` of a message with an empty body
+        # is empty. Otherwise `BODY[HEADER]` + `BODY[TEXT]` is two octets
+        # longer than `BODY[]`.)
         #
-        msg_text = (
-            msg_text if msg_text.endswith(b"\r\n") else msg_text + b"\r\n"
-        )
+        if msg_text and not msg_text.endswith(b"\r\n"):
+            msg_text = msg_text + b"\r\n"
 
         # If this is a partial only return the bits asked for.
         #
